@@ -208,6 +208,29 @@ func execC15(t *testing.T, cc any, o *Outcome) {
 	if c.Index {
 		orig.ReinitIndexes()
 	}
+	if c.Copy == "subtree" && c.CopyN%6 == 0 && len(c.Start) < 20000 {
+		// the clade below the root is the whole tree — also when the root has a single neighbour (a tree written with one more
+		// pair of parentheses; gotree then treats the root as an unnamed tip)
+		text := c.Start
+		if c.CopyN%12 == 0 {
+			text = "(" + strings.TrimSuffix(strings.TrimSpace(c.Start), ";") + ");"
+		}
+		guard(o, "subtree-at-root", func() {
+			t := mustParse(text)
+			if c.Index {
+				t.ReinitIndexes()
+			}
+			want := t.Newick()
+			got := t.SubTree(t.Root()).Newick()
+			o.Probe("subtree-at-the-root")
+			if got != want {
+				o.Fail("subtree:root", "SubTree at the root differs from the tree\n  tree    %s\n  subtree %s", want, got)
+			}
+			if after := t.Newick(); after != want {
+				o.Fail("subtree:root-changes-original", "SubTree at the root changed the tree\n  before %s\n  after  %s", want, after)
+			}
+		})
+	}
 	o.Probe("copy:" + c.Copy)
 	if strings.Contains(c.Start, "[b") {
 		o.Probe("clone-with-branch-comments")
